@@ -235,9 +235,10 @@ def f32_from_bits(bits):
 
 class Payload:
     """An opaque variable-length run of bytes/chars with a charset and a length term."""
-    __slots__ = ("id", "kind", "charset", "len", "origin", "escapes")
+    __slots__ = ("id", "kind", "charset", "len", "origin", "escapes", "meta")
 
-    def __init__(self, kind, charset, length, origin="", escapes=()):
+    def __init__(self, kind, charset, length, origin="", escapes=(), meta=None):
+        self.meta = meta or {}
         self.id = next(_ids)
         self.kind = kind  # 'str' | 'bytes'
         self.charset = frozenset(charset)  # byte / code point values that may occur
@@ -263,15 +264,19 @@ class Bytes:
       ('disp', v, ty)                     Display rendering of a number (decimal text)
       ('lenof', ...)  never here: lengths are 'int' parts whose v is a Sym(op='len')
     """
-    __slots__ = ("parts", "is_str", "id")
+    __slots__ = ("parts", "is_str", "id", "nset", "src_id")
 
     def __init__(self, parts=(), is_str=False):
         self.parts = list(parts)
         self.is_str = is_str
         self.id = next(_ids)
+        self.nset = 0
+        self.src_id = self.id
 
     def copy(self):
-        return Bytes(list(self.parts), self.is_str)
+        c = Bytes(list(self.parts), self.is_str)
+        c.src_id = self.src_id
+        return c
 
     def __repr__(self):
         return "%s%r" % ("Str" if self.is_str else "Bytes", self.parts)
